@@ -271,6 +271,17 @@ def tag_settled(tagdir):
     return t["starts"] == t["ends"]
 
 
+
+def report(sh: Shard, label, what, witness):
+    """Shard keeps at most 40 witnesses per shard: store one witness per *classified* mechanism and only count
+    the further ones, so that an unclassified refutation always finds room for its witness."""
+    k = label or "unclassified"
+    if label is not None and any((v["mechanism"] or "unclassified") == k for v in sh.violations):
+        sh.violation_counts[k] = sh.violation_counts.get(k, 0) + 1
+        return
+    sh.violation(label, what, witness)
+
+
 # ------------------------------------------------------------------------------- one case
 def judge(cmd, environment, workdir, sut, ref, tag, reftag):
     """List of failed judgements: [(which, detail)]."""
@@ -427,7 +438,7 @@ async def run_case(env, sh: Shard, case: dict):
             what = (f"{target} command #{k} (env={rec['environment']!r} workdir={rec['workdir']!r} timeout={cmd['timeout']}): "
                     + "; ".join(f"[{w}] {d}" for w, d in bad[:4]))
             for label in labels:
-                sh.violation(label, what, {"case": case, "k": k, "failed": bad[:6], "sut": _short(sut), "ref": _short(ref),
+                report(sh, label, what, {"case": case, "k": k, "failed": bad[:6], "sut": _short(sut), "ref": _short(ref),
                                            "executions": tag["starts"], "info": rec["info"], "after_shell_timeout": after_timeout})
         if this_timed_out_on_shell:
             last_shell_timeout = k
